@@ -44,6 +44,7 @@ static int g_alpha = ALPHA_FULL;
 static std::vector<char> g_active;  // ALPHA_STRUCT: operand restriction (empty = all)
 static const int N_ORIG = 12;
 
+static bool g_reduced = false;      // representative ref/old operands for insertBefore / replaceChild (last layer of the thorough tier)
 static bool isActive(int id) { return g_active.empty() || (id < (int)g_active.size() && g_active[id]); }
 
 static void genOps(const RDom& d, std::vector<Opn>& out) {
@@ -56,9 +57,22 @@ static void genOps(const RDom& d, std::vector<Opn>& out) {
     for (int t : live) {
         const RNode& T = d.n[t];
         for (int a : withNull) add(OP_APPEND, t, a);
-        for (int a : withNull) for (int b : withNull) add(OP_INSERT, t, a, b);
+        auto refs = [&](int a) {
+            // full: every live node and null.  reduced: null, every child of t, newChild itself, t itself, and the lowest-numbered other node
+            // (all other non-children are equivalent for the specification: NOT_FOUND_ERR unless an earlier check fires)
+            if (!g_reduced) return withNull;
+            std::vector<int> r; bool other = false;
+            for (int b : live) {
+                bool special = d.n[b].parent == t || b == a || b == t;
+                if (special) r.push_back(b);
+                else if (!other) { r.push_back(b); other = true; }
+            }
+            r.push_back(-1);
+            return r;
+        };
+        for (int a : withNull) for (int b : refs(a)) add(OP_INSERT, t, a, b);
         for (int a : withNull) add(OP_REMOVE, t, a);
-        for (int a : withNull) for (int b : withNull) add(OP_REPLACE, t, a, b);
+        for (int a : withNull) for (int b : refs(a)) add(OP_REPLACE, t, a, b);
         if (g_alpha == ALPHA_FULL) {
             add(OP_CLONE, t, -1, -1, 0); add(OP_CLONE, t, -1, -1, 1);
             add(OP_NORMALIZE, t);
@@ -495,18 +509,19 @@ static void parseCrashes(const std::string& js, std::vector<std::pair<uint64_t, 
 }
 
 // ------------------------------------------------------------------------------------------------ report pass
-struct Instance { State s; Opn op; size_t opIdx; int depth; std::string kind; uint64_t count = 0; uint64_t cs = 0; };
+struct Instance { State s; Opn op; size_t opIdx; int depth; std::string kind; uint64_t count = 0; uint64_t cs = 0; bool reduced = false; };
 static std::vector<Instance> g_report;                       // one per discrepancy kind (minimal instance)
-struct CrashCase { State s; std::string how; uint32_t opIdx; };
+struct CrashCase { State s; std::string how; uint32_t opIdx; bool reduced; };
 static std::vector<CrashCase> g_crashed;                     // frontier states whose expansion killed a worker
 static std::map<std::string, uint64_t> g_total;              // counters accumulated over all layers
 static std::vector<std::string> g_samples;
 static uint64_t g_reportTotal = 0;
 
 static const uint64_t ENC_FLAG = 1ULL << 60;
+static const uint64_t ENC_REDUCED = 1ULL << 55;
 static bool encodeHist(const std::vector<uint16_t>& idx, uint64_t& out) {
     if (idx.size() > 3) return false;
-    out = ENC_FLAG | ((uint64_t)idx.size() << 56);
+    out = ENC_FLAG | ((uint64_t)idx.size() << 56) | (g_reduced ? ENC_REDUCED : 0);
     for (size_t i = 0; i < idx.size(); i++) out |= (uint64_t)idx[i] << (16 * i);
     return true;
 }
@@ -580,7 +595,9 @@ static void reportCase(uint64_t idx, Ctx& c) {
         std::vector<uint16_t> h = decodeHist(idx);
         if (h.empty()) { printf("empty history\n"); return; }
         State s; Ref ref;
+        g_reduced = false;
         if (!stateFromIndices(h, h.size() - 1, s, ref)) { printf("history index out of range\n"); return; }
+        g_reduced = (idx & ENC_REDUCED) != 0;
         std::vector<Opn> ops; genOps(ref.d, ops);
         if (h.back() >= ops.size()) { printf("op index out of range\n"); return; }
         reportInstance(s, ops[h.back()], h.back(), "", 0, c);
@@ -608,13 +625,15 @@ static void reportCase(uint64_t idx, Ctx& c) {
         return;
     }
     k -= KNOWN_DEFECTS.size();
-    if (k < g_report.size()) { reportInstance(g_report[k].s, g_report[k].op, g_report[k].opIdx, g_report[k].kind, g_report[k].count, c); return; }
+    if (k < g_report.size()) { g_reduced = g_report[k].reduced; reportInstance(g_report[k].s, g_report[k].op, g_report[k].opIdx, g_report[k].kind, g_report[k].count, c); return; }
     k -= g_report.size();
     if (k < g_crashed.size()) {
         // the worker expanding this state died; the shared progress word names the call it was executing
         const State& s = g_crashed[k].s;
         State pre; Ref ref;
+        g_reduced = false;
         if (!stateFromIndices(s.idx, s.idx.size(), pre, ref)) { c.violation("harness-replay-failed", "\"history\":" + histJson(s)); return; }
+        g_reduced = g_crashed[k].reduced;
         std::vector<Opn> ops; genOps(ref.d, ops);
         uint32_t oi = g_crashed[k].opIdx;
         std::string call = oi < ops.size() ? opStr(ref.d, ops[oi]) : std::string("<unknown>");
@@ -637,6 +656,7 @@ int main(int argc, char** argv) {
     int depth = (int)a.num("depth", 1);
     bool fix = a.num("fix", 0) != 0;
     int maxLayers = (int)a.num("max-layers", 64);
+    bool reduceLast = a.num("reduce-last", 0) != 0;
     if (fix) {
         g_alpha = ALPHA_STRUCT;
         std::string act = a.str("active", "");
@@ -683,6 +703,7 @@ int main(int argc, char** argv) {
         Ctx c; c.verbose = true;
         State s; Ref ref;
         if (h.empty() || !stateFromIndices(h, h.size() - 1, s, ref)) { printf("bad history\n"); return 2; }
+        g_reduced = reduceLast;
         std::vector<Opn> ops; genOps(ref.d, ops);
         if (h.back() >= ops.size()) { printf("bad op index\n"); return 2; }
         (void)enc;
@@ -725,6 +746,7 @@ int main(int argc, char** argv) {
         double now = ts.tv_sec + ts.tv_nsec * 1e-9;
         if (deadline > 0 && now - t0 > deadline) { deadlineHit = true; break; }
         g_finalLayer = !fix && layer == nLayers - 1;
+        g_reduced = g_finalLayer && reduceLast;
         g_sideBase = out + ".L" + std::to_string(layer);
         std::string lout = g_sideBase + ".json";
         layerSizes.push_back(g_frontier.size());
@@ -747,7 +769,7 @@ int main(int argc, char** argv) {
         std::vector<std::pair<uint64_t, std::string>> crashes;
         parseCrashes(js, crashes);
         g_total["worker_deaths"] += crashes.size();
-        for (auto& cr : crashes) if (cr.first < g_frontier.size() && g_crashed.size() < 20) g_crashed.push_back({g_frontier[cr.first], cr.second, g_prog[cr.first]});
+        for (auto& cr : crashes) if (cr.first < g_frontier.size() && g_crashed.size() < 20) g_crashed.push_back({g_frontier[cr.first], cr.second, g_prog[cr.first], g_reduced});
         munmap((void*)g_prog, progBytes); g_prog = nullptr;
         // merge side files
         struct Succ { uint64_t cs; size_t oi; Opn op; };
@@ -778,7 +800,7 @@ int main(int argc, char** argv) {
                     const std::string& kind = fl[1];
                     auto it = kinds.find(kind);
                     if (it != kinds.end() && (it->second.depth < layer || std::make_pair(it->second.cs, it->second.opIdx) <= std::make_pair(cs, oi))) continue;
-                    Instance in; in.s = g_frontier[cs]; in.op = o; in.opIdx = oi; in.depth = layer; in.kind = kind; in.cs = cs;
+                    Instance in; in.s = g_frontier[cs]; in.op = o; in.opIdx = oi; in.depth = layer; in.kind = kind; in.cs = cs; in.reduced = g_reduced;
                     kinds[kind] = in;
                 }
             }
@@ -830,7 +852,7 @@ int main(int argc, char** argv) {
     for (size_t i = 0; i < g_active.size(); i++) if (g_active[i]) { if (!act.empty()) act += ","; act += std::to_string(i); }
     R.extra_json = std::string("\"depth\":") + std::to_string(completedDepth) + ",\"alphabet\":" + std::to_string(g_total["alphabet_transitions_of_initial_state"]) +
                    ",\"bounds\":{\"mode\":" + jstr(fix ? "fixpoint-structural" : "bounded-full") + ",\"requested_depth\":" + std::to_string(fix ? maxLayers : depth) +
-                   ",\"frontier_sizes\":" + ls + ",\"closed\":" + (closed ? "true" : "false") + ",\"active_nodes\":" + jstr(act) + "}";
+                   ",\"frontier_sizes\":" + ls + ",\"closed\":" + (closed ? "true" : "false") + ",\"active_nodes\":" + jstr(act) + ",\"last_layer_reduced_operands\":" + (reduceLast ? "true" : "false") + "}";
     int r = R.run();
     if (r == -2) return 3;
     if (r < 0) return 2;
